@@ -291,16 +291,36 @@ move_thread_to_final(const char *src, const char *dst)
 	FILE *outfile = fopen(dst, "w");
 
 	if (outfile == NULL) {
-		err("fopen(%s) failed:", src);
+		err("fopen(%s) failed:", dst);
+		fclose(infile);
 		return -1;
 	}
 
+	int ret = 0;
 	size_t bytes;
-	while ((bytes = fread(buffer, 1, sizeof(buffer), infile)) > 0)
-		fwrite(buffer, 1, bytes, outfile);
+	while ((bytes = fread(buffer, 1, sizeof(buffer), infile)) > 0) {
+		if (fwrite(buffer, 1, bytes, outfile) != bytes) {
+			err("fwrite(%s) failed:", dst);
+			ret = -1;
+			break;
+		}
+	}
 
-	fclose(outfile);
+	if (ret == 0 && ferror(infile)) {
+		err("fread(%s) failed:", src);
+		ret = -1;
+	}
+
+	if (fclose(outfile) != 0) {
+		err("fclose(%s) failed:", dst);
+		ret = -1;
+	}
+
 	fclose(infile);
+
+	/* Keep the source file if it was not completely copied */
+	if (ret != 0)
+		return -1;
 
 	if (remove(src) != 0) {
 		err("remove(%s) failed:", src);
@@ -316,16 +336,14 @@ move_thdir_to_final(const char *thdir, const char *thdir_final)
 	DIR *dir;
 	int ret = 0;
 
-	if ((dir = opendir(thdir)) == NULL) {
-		err("opendir %s failed:", thdir);
-		return;
-	}
+	if ((dir = opendir(thdir)) == NULL)
+		die("opendir %s failed:", thdir);
 
 	struct dirent *dirent;
 	const char *prefix = "stream.";
 	const char *metaname = "stream.json";
 	int has_meta = 0;
-	while ((dirent = readdir(dir)) != NULL) {
+	while ((errno = 0, dirent = readdir(dir)) != NULL) {
 		/* It should only contain stream.* directories, skip others */
 		if (strncmp(dirent->d_name, prefix, strlen(prefix)) != 0)
 			continue;
@@ -362,6 +380,11 @@ move_thdir_to_final(const char *thdir, const char *thdir_final)
 			ret = 1;
 	}
 
+	if (errno != 0) {
+		err("readdir %s failed:", thdir);
+		ret = 1;
+	}
+
 	closedir(dir);
 
 	/* Move the metadata now that the rest of files are in place */
@@ -377,9 +400,11 @@ move_thdir_to_final(const char *thdir, const char *thdir_final)
 		}
 	}
 
-	/* Warn the user, but we cannot do much at this point */
+	/* The files that could not be moved are kept in the temporal directory,
+	 * but the trace in the final directory is not complete. */
 	if (ret)
-		err("errors occurred when moving the thread dir to %s", thdir_final);
+		die("errors occurred when moving the thread dir %s to %s",
+				thdir, thdir_final);
 }
 
 static void
